@@ -724,19 +724,76 @@ func honestFile(stanzas int, P []byte) (file []byte, headerLen int, fileKey []by
 }
 
 // Harness_C03_byte_flip: one byte of the header of an honest file is replaced
-// by an arbitrary different byte: Decrypt returns no reader, for an identity
-// that unwraps the original file key whatever it is shown.
+// by an arbitrary different byte, or an arbitrary byte is inserted, or a byte
+// is deleted, at any position: Decrypt returns no reader, for an identity that
+// unwraps the original file key whatever it is shown.
 func Harness_C03_byte_flip() {
 	V.InstallTape()
 	P := V.Bytes("P", V.Int("n", 0, 1))
 	file, hl, fk := honestFile(V.Int("stanzas", 1, V.Param("maxstanzas", 2)), P)
 	stride := V.Param("stride", 1)
-	pos := V.Int("posk", 0, (hl-1)/stride)*stride + V.Param("phase", 0)
-	V.Assume(pos < hl)
+	kind := V.Int("edit", 0, V.Param("edits", 2))
+	// positions 0..hl-1: an insertion goes in front of a header byte (a byte
+	// inserted after the final newline would be a payload change, C02)
+	hi := hl - 1
+	pos := V.Int("posk", 0, hi/stride)*stride + V.Param("phase", 0)
+	V.Assume(pos <= hi)
 	c := V.Byte("c")
-	V.Assume(c != file[pos])
-	t := append([]byte(nil), file...)
-	t[pos] = c
+	t := append([]byte(nil), file[:pos]...)
+	switch kind {
+	case 0:
+		V.Assume(c != file[pos])
+		t = append(t, c)
+		t = append(t, file[pos+1:]...)
+	case 1:
+		t = append(t, c)
+		t = append(t, file[pos:]...)
+	case 2:
+		t = append(t, file[pos+1:]...)
+	}
+	// an edit at the very end of the header can leave the header bytes as they
+	// were and change the payload instead (e.g. deleting the final newline when
+	// the payload starts with a newline): that is C02's business, not C03's
+	V.Assume(len(t) < hl || !bytes.Equal(t[:hl], file[:hl]))
+	var log []int
+	id := &absIdentity{id: 0, outcome: 0, fileKey: fk, log: &log}
+	r, err := Decrypt(bytes.NewReader(t), id)
+	V.Reach("returned")
+	V.Assert(r == nil && err != nil, "a file with an altered header byte was accepted")
+}
+
+// Harness_C03_edit_concrete: the same single-byte edits (substitution,
+// insertion, deletion at every position) on a fixed, fully concrete valid file
+// with two stanzas (one with a 32-byte body, one with an empty body): only the
+// edit is symbolic, so every position is explored cheaply.
+func Harness_C03_edit_concrete() {
+	fk := []byte("0123456789abcdef")
+	body := make([]byte, 32)
+	for i := range body {
+		body[i] = byte(7*i + 1)
+	}
+	st := []refStanza{{"X25519", []string{"TEiF0ypqr+bpvcqXNyCVJpL7OuwPdVwPL7KQEbFDOCc"}, body}, {"grease", []string{"a"}, nil}}
+	hdr := refHeader(fk, st)
+	hl := len(hdr)
+	nonce := []byte("NONCENONCENONCE!")
+	file := append(append([]byte(nil), hdr...), nonce...)
+	file = append(file, refStream(fk, nonce, []byte("hi"))...)
+	kind := V.Int("edit", 0, 2)
+	pos := V.Int("pos", 0, hl-1)
+	c := V.Byte("c")
+	t := append([]byte(nil), file[:pos]...)
+	switch kind {
+	case 0:
+		V.Assume(c != file[pos])
+		t = append(t, c)
+		t = append(t, file[pos+1:]...)
+	case 1:
+		t = append(t, c)
+		t = append(t, file[pos:]...)
+	case 2:
+		t = append(t, file[pos+1:]...)
+	}
+	V.Assume(!bytes.Equal(t[:hl], file[:hl]))
 	var log []int
 	id := &absIdentity{id: 0, outcome: 0, fileKey: fk, log: &log}
 	r, err := Decrypt(bytes.NewReader(t), id)
